@@ -2,11 +2,12 @@
     resolver model, the graph queries used to print the dump, and the reference evaluation of
     LangSpec with its comparison against an observed graph. *)
 From Coq Require Import ExtrOcamlBasic NArith.
-From WacV Require Import Str Token Lexer LexImpl Semver Ast Parser Graph Resolver.
+From WacV Require Import Str Token Lexer LexImpl Semver Ast Parser Graph Resolver LangSpec.
 Extraction Language OCaml.
 
 Definition parse_impl (src : str) : pres document := parse_document impl_flags impl_cfg src.
 
 Extraction "../build/c04/model.ml"
   N.of_nat N.to_nat parse_impl parse_version version_eqb resolve
-  node_ids get_node get_alias_source get_args list_imports find_pkg_slot outgoing alist_get.
+  node_ids get_node get_alias_source get_args list_imports find_pkg_slot outgoing alist_get
+  denote doc_flags impl_flags_c04.
